@@ -143,13 +143,32 @@ var c02probes = []probe{
 	{"C02/self-name-shadowed-tail-call", `(begin (defn k [x] (begin (defn k [x] (t 1 0)) (k 3))) (k (t 2 1)))`},
 }
 
+// c02fresh: a literal or constructor call written at a place that is evaluated more than once yields a fresh object
+// every time; objects are shared exactly where the program shares them. Each program mutates one of the results and
+// then looks at all of them.
+var c02fresh = []string{
+	`(begin (def h2 (hash)) (for [(def i 0) (< i 3) (set i (+ i 1))] (hset h2 i [0 0])) (aset (hget h2 0) 0 7) (list (hget h2 0) (hget h2 1) (hget h2 2)))`,
+	`(begin (defn id1 [v] v) (defn mk [] (id1 [1 2])) (def p (mk)) (def q (mk)) (aset p 0 9) (list p q (mk)))`,
+	`(begin (defn ap [x] (append [1 2 3] x)) (def p (ap 4)) (def q (ap 5)) (list p q (ap 6)))`,
+	`(begin (def acc []) (for [(def i 0) (< i 3) (set i (+ i 1))] (set acc (append acc (list [0])))) (aset (first (aget acc 0)) 0 5) acc)`,
+	`(begin (defn mk2 [] (list [0 0] "s")) (def p (mk2)) (aset (first p) 1 8) (list p (mk2)))`,
+	`(begin (defn mk3 [] (array 0 0)) (def p (mk3)) (def q (mk3)) (aset p 0 1) (list p q))`,
+	`(begin (defn mk4 [] (hash k: [1])) (def p (mk4)) (aset (hget p k:) 0 3) (list (hget p k:) (hget (mk4) k:)))`,
+	`(begin (def shared [0]) (defn use [] (id2 shared)) (defn id2 [v] v) (aset (use) 0 4) (list shared (use)))`,
+	`(begin (defn two [] (list (f 10 [1 2 3]) 0)) (defn f [x y] y) (def p (first (two))) (aset p 2 0) (list p (first (two))))`,
+	`(begin (def rows []) (for [(def i 0) (< i 2) (set i (+ i 1))] (let [r (concat [i] [0])] (set rows (append rows r)))) (aset (aget rows 0) 1 6) rows)`,
+	`(begin (defn cnt [] (len (append [] 1))) (list (cnt) (cnt) (cnt)))`,
+	`(map (fn [x] (aset [0 0] 0 x)) [1 2])`,
+	`(begin (def out []) (for [(def i 0) (< i 3) (set i (+ i 1))] (let [cell ["a" "b"]] (aset cell 0 i) (set out (append out cell)))) out)`,
+}
+
 func init() {
 	engine.Register(&engine.Check{
 		ID:    "C02",
 		Level: "exploration",
 		Rule: "programs of the core language enumerated from one-/two-/three-hole contexts (control forms, calls, data operations) over a leaf pool " +
 			"(traced host calls with unique ids, variables, literals, a failing host call, an unbound name): all depth-1 trees in all 6 layout styles, all context chains of length 2 " +
-			"(thorough: length 3 over the control contexts, full depth-2 trees over a reduced set); each program is evaluated on a fresh interpreter and by the reference evaluator R1; " +
+			"(thorough: length 3 over the control contexts, full depth-2 trees over a reduced set), plus 13 programs in which a literal or constructor call is evaluated repeatedly and one result is then mutated; each program is evaluated on a fresh interpreter and by the reference evaluator R1; " +
 			"value, error class and host-call trace are compared; distinct_nontrivial = distinct (shape, outcome, trace) triples among programs that make a host call or raise an error",
 		Assumptions: []string{
 			"R1 (internal/ref/r1.go) is the specification: textbook lexical scopes, left-to-right single evaluation after the callee, short-circuit forms return the last arm evaluated",
@@ -201,9 +220,27 @@ func init() {
 					return !c.Expired()
 				})
 			}
+			// (5) literals and constructors evaluated repeatedly, then mutated
+			for _, src := range c02fresh {
+				if c.Mine() {
+					res := diffProgram(c, "C02", nil, Parse(src), 0, progOpts{keyExtra: "fresh-objects"})
+					if res.tr != nil {
+						res.tr.Env.Close()
+					}
+					if res.skipped {
+						c.Count("fresh_object_programs_not_modelled", 1)
+					}
+				}
+			}
 			c.Note("bound", fmt.Sprintf("contexts=%d leaves=%d; depth-1 full x %d styles; chains length 2 (thorough: + length 3 over %d control contexts, full depth 2 over 12 contexts x 3 leaves)", len(all), len(leaves), nStyles, len(ctl)))
 		},
 		Replay: func(c *engine.Ctx, w string) {
+			for _, src := range c02fresh {
+				if witnessOf(0, nil, Parse(src)) == w {
+					replayProgram(c, "C02", nil, w, nil, progOpts{keyExtra: "fresh-objects"})
+					return
+				}
+			}
 			replayProgram(c, "C02", c02prelude(), w, c02probes, progOpts{})
 		},
 	})
